@@ -100,6 +100,22 @@ fn observe(case: &Value) -> Vec<(String, Value)> {
                     let mut o = json!({"cmp": ord(tr.cmp(&ts)), "total_r": tr.total_result.0, "total_s": ts.total_result.0});
                     if !kept { o["results_not_kept_in_order"] = json!(true); }
                     if tr.partial_cmp(&ts) != Some(tr.cmp(&ts)) { o["partial_cmp_disagrees"] = json!(true); }
+                    // every way of producing a copy yields the same collection: results AND total
+                    // (clone, clone_from onto a populated value, the element-wise clone_from of a Vec,
+                    // building from borrowed values, the sums of Score / Error by value and by reference)
+                    let total_of = |t: &TestResults<$K<i64>>| -> i64 { t.results.iter().map(|x| x.0).sum() };
+                    let mut c1 = tr.clone();
+                    c1.clone_from(&ts);
+                    let mut c2 = vec![tr.clone(), ts.clone()];
+                    c2.clone_from(&vec![ts.clone(), tr.clone()]);
+                    let c3: TestResults<$K<i64>> = sv.iter().map(|v| $K(*v)).collect();
+                    let by_val: $K<i64> = ts.results.iter().copied().sum();
+                    let by_ref: $K<i64> = ts.results.iter().sum();
+                    let copies_ok = c1 == ts && c1.total_result.0 == total_of(&c1)
+                        && c2[0] == ts && c2[1] == tr && c2[0].total_result.0 == total_of(&c2[0]) && c2[1].total_result.0 == total_of(&c2[1])
+                        && c3 == ts && ts.clone() == ts
+                        && by_val.0 == total_of(&ts) && by_ref.0 == total_of(&ts);
+                    if !copies_ok { o["a_copy_differs_from_its_source"] = json!(true); }
                     out.push((format!("TestResults<{}>", $name), o));
                     let ia = EcIndividual::new(7u8, tr.clone());
                     let ib = EcIndividual::new(9u8, ts.clone());
